@@ -547,8 +547,6 @@ def rule_dispatch_addresses(ctx) -> None:
 
         def cv(c: ast.Call, ev, log=log):
             f = norm(c.func)
-            if f in ("deepcopy", "copy.deepcopy") and len(c.args) == 1:
-                return ev.ev(c.args[0])
             if f == "align_block" and c.args:
                 d = bytes(ev.ev(c.args[0]))
                 al = ev.ev(A.arg_of(c, 1, "alignment")) if A.arg_of(c, 1, "alignment") is not None else 4
@@ -564,6 +562,8 @@ def rule_dispatch_addresses(ctx) -> None:
             return _oe.NOT_MODELLED
         BASE = 0x20000
         me = MObj(_cls=kcls, binaries=tree, keyblob_address=BASE)
+        from ..engines import roundtrip as _rt
+        before = _rt.fields_of(tree, 6)
         env = {"self": me, "plain_data": False, "swap_bytes": False, "join_sub_images": False, "table_address": BASE}
         env = {k: v for k, v in env.items() if k == "self" or k in [a.arg for a in fn.node.args.args + fn.node.args.kwonlyargs]}
         try:
@@ -572,6 +572,9 @@ def rule_dispatch_addresses(ctx) -> None:
             raise AnalysisError(f"C13.own-address: {fn.qual} left the fragment: {ex}")
         want_log = [(b"A" * 16, BASE + 0x1000), (b"B" * 32, BASE + 0x3000), (b"C" * 16, BASE + 0x3400)]
         ok = out.kind == "return" and sorted(log) == sorted(want_log)
+        after = _rt.fields_of(me.binaries, 6)
+        chk.decide(before == after, "C13.export-keeps-plaintext", f"{fn.qual}", "the export encrypts a copy: the object's own image tree still holds the plaintext afterwards (a second export gives the same bytes)",
+                   "after export the object's image tree holds encrypted data (the copy shares the blobs): a second export encrypts again" if before != after else "", "", A.loc(rp, fn.node))
         chk.decide(ok, "C13.own-address", f"{fn.qual}", "every non-empty data blob and segment is encrypted exactly once, at its own absolute address plus the table / key-blob base",
                    f"encrypted (length, address): {[(len(d), hex(a) if isinstance(a, int) else a) for d, a in log]} ({out.kind})", f"{[(len(d), hex(a)) for d, a in want_log]}", A.loc(rp, fn.node))
     chk.floor("C13.own-address", 2)
